@@ -516,11 +516,13 @@ Proof.
     + rewrite Eaf. reflexivity.
   - assert (q_next st b <> Some ref) as Hq by (apply opt_eqb_false_ne; exact Enoop).
     destruct (remove_consolidate st (q_prev st b) (q_next st b)) as [st1 m0] eqn:E1.
+    cbv zeta.
     destruct (cons st) eqn:Ec.
     2:{ assert (st1 = st /\ m0 = false) as [-> ->].
         { unfold remove_consolidate in E1. rewrite Ec in E1. cbn in E1. inversion E1; auto. }
         unfold add_consolidate. rewrite Ec. cbn [negb fst]. reflexivity. }
     specialize (Hcn eq_refl).
+    rewrite (insert_before_neighbour_noadj st ref b zb st1 m0 G Ec Hcn Hcb Enoop E1 (proj2 (rc_value st b zb st1 m0 G Ec Hcn Hcb Hnb E1))).
     destruct (rc_around st b zb st1 m0 G Ec Hcn Hcb Hnb E1)
       as [[-> ->]|(-> & pb & nb & tp & tn & Hqp & Hqn & Hvp & Hvn & Hpb & Hnbb & Hpn & Hbt & Hpk & Hnk & Es1 & Cs1 & G1 & Hf1 & Hf2 & Hub)].
     + destruct (add_consolidate st b (q_prev st ref) (Some ref)) as [st2 m] eqn:E2.
@@ -684,11 +686,13 @@ Proof.
     apply (append_in_place P b v k (frev r) (z_val zP) (store st) Hnd). rewrite (find_of_cur _ _ _ HcP), Ek. reflexivity.
   - assert (q_raw_last_child st P <> Some b) as Hq by (apply opt_eqb_false_ne; exact Enoop).
     destruct (remove_consolidate st (q_prev st b) (q_next st b)) as [st1 m0] eqn:E1.
+    cbv zeta.
     destruct (cons st) eqn:Ec.
     2:{ assert (st1 = st /\ m0 = false) as [-> ->].
         { unfold remove_consolidate in E1. rewrite Ec in E1. cbn in E1. inversion E1; auto. }
         unfold add_consolidate. rewrite Ec. cbn [negb fst]. reflexivity. }
     specialize (Hcn eq_refl).
+    rewrite (append_neighbour_noadj st P b zb st1 m0 G Ec Hcn Hcb Enoop E1 (proj1 (rc_value st b zb st1 m0 G Ec Hcn Hcb Hnb E1)) (proj2 (rc_value st b zb st1 m0 G Ec Hcn Hcb Hnb E1))).
     destruct (rc_around st b zb st1 m0 G Ec Hcn Hcb Hnb E1)
       as [[-> ->]|(-> & pb & nb & tp & tn & Hqp & Hqn & Hvp & Hvn & Hpb & Hnbb & Hpn & Hbt & Hpk & Hnk & Es1 & Cs1 & G1 & Hf1 & Hf2 & Hub)].
     + destruct (add_consolidate st b (q_last_child st P) None) as [st2 m] eqn:E2.
